@@ -270,6 +270,62 @@ def mon_C12(md_lib, cfg, ops, impl, stats, r=None):
             out.append("op %d: exception_caught invoked %d times for %d planned throws" % (k, len(ecs), len(throws)))
     return out
 
+# ---- C15 / C16 --------------------------------------------------------------------------------------
+def snaps_by_object(block):
+    out = collections.defaultdict(list)
+    for l in block:
+        if l.startswith("SNAP"):
+            tag = l.split(" ", 1)[0]
+            out[0 if tag == "SNAP" else int(tag.split("@")[1])].append(l.split(" ", 1)[1])
+    return out
+
+def op_target(op):
+    if op[0] == "on":
+        return {op[1]}
+    if op[0] in ("copy", "assign", "saveload"):
+        return {op[1]}
+    if op[0] == "move":
+        return {op[1], op[2]}
+    return {0}
+
+def mon_C15(md_lib, cfg, ops, impl, stats, r=None):
+    """an operation on one machine object never changes what another object reports, and a copy / loaded object
+    reports exactly what its source reports at that moment"""
+    out = []
+    prev = None
+    for k, block in enumerate(impl):
+        op = ops[k] if k < len(ops) else None
+        cur = snaps_by_object(block)
+        if op and prev is not None:
+            tg = op_target(op)
+            for obj, snap in prev.items():
+                if obj not in tg and cur.get(obj) != snap:
+                    out.append("op %d %s: object %d changed from %s to %s although the operation addressed object(s) %s"
+                               % (k, op[0], obj, snap, cur.get(obj), sorted(tg)))
+            if op[0] in ("copy", "assign", "saveload") and cur.get(op[1]) != cur.get(op[2]):
+                out.append("op %d %s: object %d reports %s, its source %d reports %s" % (k, op[0], op[1], cur.get(op[1]), op[2], cur.get(op[2])))
+            if op[0] in ("copy", "assign", "move", "saveload"):
+                stats.nontrivial.add((op[0], tuple(cur.get(op[1], []))))
+                stats.dist[("object-op", op[0])] += 1
+        prev = cur
+    return out
+
+# ---- C13 --------------------------------------------------------------------------------------------
+def proj_C13(block):
+    """what must be identical across back-ends: every behaviour invocation with order and arguments, the active ids
+    after the operation, and the handled / zero status"""
+    out = []
+    for l in block:
+        p = parse(l)
+        if p:
+            out.append((p["tag"], p["path"], p["id"], p["ety"], p["pay"]))
+        elif l.startswith("R "):
+            c = int(l.split()[1])
+            out.append(("status", "zero" if c == 0 else ("handled" if c & 1 else "not-handled")))
+        elif l.startswith("SNAP") or l == "ESC":
+            out.append(l)
+    return out
+
 # ---- known findings ------------------------------------------------------------------------------------
 def is_known(prop, violation, findings):
     """a monitor violation is a known finding only if it comes from the pinned replay of that finding"""
